@@ -36,6 +36,7 @@ def run(rep, ctx):
     rep.run_rule("C13.R1", "state fields of value objects are stored only by constructors (validation memo: also ValidateValues)", r1_writers, ctx)
     rep.run_rule("C13.R2", "no mutation sink of the library reaches operand data (value containers, FractionValue parts)", r2_sinks, ctx)
     rep.run_rule("C13.R3", "copy hooks return the object itself; __reduce__ argument order matches the constructor's quantity form", r3_copies, ctx)
+    rep.run_rule("C13.R5", "conversion functions never update their argument in place (an ndarray operand would be changed for the caller)", r5_no_inplace_in_conversions, ctx)
     rep.run_rule("C13.R4", "CreateCopy builds a new object through CreateWithQuantity from the source's own value and quantity", r4_createcopy, ctx)
     rep.not_decided += [
         "equality of a pickle round-trip beyond the argument order of __reduce__ (Quantity's own round-trip is C07.R8)",
@@ -200,3 +201,26 @@ def r4_createcopy(rep, ctx):
     a = ctx.prov
     ret = a.sum[cw.qual].ret
     rep.check(prov.is_fresh(set(ret.lv[0])), "C13.R4", "CreateWithQuantity:fresh", "CreateWithQuantity returns a freshly allocated object", "CreateWithQuantity may return %s" % prov.fmt_atoms(set(ret.lv[0])), fn=cw)
+
+
+# ------------------------------------------------------------------------------------------------
+CONVERSION_FUNCS = ("Convert", "ConvertNumpyArray", "ConvertScalarValue", "_ConvertWithExp", "ConvertFractionValue", "GetAbstractValue", "_MatchQuantities",
+                    "_DoOperationWithSameQuantity", "_DoOperationResultingInNewQuantity")
+
+
+def r5_no_inplace_in_conversions(rep, ctx):
+    """`x *= b` on a parameter is an in-place update when x is an ndarray: the closures produced by the
+    conversion factories, the conversion routes and the operation routines receive the operands' own arrays, so
+    an augmented assignment to one of their parameters changes the caller's data."""
+    m = ctx.model
+    n = 0
+    for q, fn in sorted(m.funcs.items()):
+        in_factory = fn.parent is not None and fn.path.endswith("posc.py") and fn.parent.parent is None
+        if not (in_factory or fn.name in CONVERSION_FUNCS):
+            continue
+        n += 1
+        for x in own_nodes(fn.node):
+            if isinstance(x, ast.AugAssign) and isinstance(x.target, ast.Name) and x.target.id in fn.params:
+                rep.bad("C13.R5", "%s:in-place:%s" % (q.split(".", 2)[-1], x.target.id), "`%s` in %s updates its argument in place: with an ndarray the operand held by the caller (a stored Array value) is rescaled as a side effect of a conversion or an operation" % (norm(ast.unparse(x)), q.split(".", 2)[-1]), node=x, fn=fn)
+    rep.ok("C13.R5", "conversion-functions:no-in-place", "%d conversion closures / routes examined: no augmented assignment to a parameter" % n)
+    rep.floor("C13.R5", "conversion functions examined", n, 4)
